@@ -7,7 +7,8 @@ blocked in poll() on its input.  AUTOQMAIL is "/proc/self/cwd", so every case ha
 
 case line:  5e <cfg> <chunk> <chunk> ...        (hex fields; cfg = ascii "key=value;key=value")
 result:     replies r<code>... in order (multi-line replies count once), then for every hand-off to the qmail-queue
-            stand-in  Q<envelope hex>/<message hex with the date of the Received line masked>, then  open | closed
+            stand-in  Q<envelope hex>/<message hex with the date of the Received line masked; with port=587 also the
+            Date: field that carries the same date>, then  open | closed
             (whether the server was still waiting for input after the last chunk).
 """
 import fcntl, glob, os, shutil, signal, socket, struct, subprocess, sys, tempfile, time
@@ -109,6 +110,7 @@ def make_tree(d, cfg):
     os.makedirs(os.path.join(d, 'users'))
     open(os.path.join(d, 'control', 'me'), 'w').write('mail.example.org\n')
     open(os.path.join(d, 'control', 'timeoutsmtpd'), 'w').write('1000\n')
+    open(os.path.join(d, 'control', 'msgidhost'), 'w').write('msgid.example.org\n')       # host part of a Message-Id added on port 587: not control/me
     open(os.path.join(d, 'control', 'rcpthosts'), 'w').write('example.org\n.sub.example.org\n')
     if cfg['check2822'] == '1':
         open(os.path.join(d, 'control', 'filterconf'), 'w').write('check_strict_rfc2822\n')
@@ -295,7 +297,7 @@ def run_case(h, R, line, idx):
                     i += 9 + n + 1
             return r
         for e, m in zip(recs(env['QQ_ENV']), recs(env['QQ_MSG'])):
-            res.append('Q' + R.hx(e) + '/' + R.hx(mask_date(m)))
+            res.append('Q' + R.hx(e) + '/' + R.hx(mask_date(m, cfg['port'] == '587')))
         stderr = open(os.path.join(d, 'stderr'), 'rb').read()
         if b'ERROR: AddressSanitizer' in stderr or b'runtime error' in stderr:
             return 'CRASH'
@@ -309,12 +311,18 @@ def run_case(h, R, line, idx):
         shutil.rmtree(d, ignore_errors=True)
 
 
-def mask_date(m):
-    """the Received: line ends in '>; ' + 31 characters of date + LF; replace the date by 31 'D'"""
+def mask_date(m, subm=False):
+    """the Received: line ends in '>; ' + 31 characters of date + LF; replace the date by 31 'D'.
+    On the submission port (subm) a line 'Date: ' + that very date is masked as well: it is the field the server adds from the
+    same buffer (a Date: line with any other content stays as it is, so a differing date shows as a disagreement)."""
     i = m.find(b'>; ')
     while i >= 0:
         if len(m) >= i + 35 and m[i + 34:i + 35] == b'\n':
-            return m[:i + 3] + b'D' * 31 + m[i + 34:]
+            date = m[i + 3:i + 34]
+            out = m[:i + 3] + b'D' * 31 + m[i + 34:]
+            if subm:
+                out = out.replace(b'\nDate: ' + date + b'\n', b'\nDate: ' + b'D' * 31 + b'\n')
+            return out
         i = m.find(b'>; ', i + 1)
     return m
 
